@@ -481,6 +481,8 @@ def gen_reduce(draw, distinct=False, allow_tuple=True):
     args = {"dim": dim, "keepdims": draw(st.booleans()), "form": draw(st.sampled_from(["method", "fn"]))}
     if dim is None and not args["keepdims"] and draw(st.booleans()):
         args["bare"] = True       # x.sum() with no arguments at all
+    if dim is not None and draw(st.integers(0, 5)) == 0:
+        args["np_int"] = True     # the dim(s) as NumPy integers (an axis computed with NumPy): int-like, not `int`
     return {"xs": [X(shp, v)], "args": args}
 
 
@@ -490,6 +492,8 @@ def _apply_reduce(name):
         if args.get("bare"):
             return getattr(x, name)()
         d = dimval(args["dim"])
+        if args.get("np_int"):
+            d = tuple(np.int64(v) for v in d) if isinstance(d, tuple) else np.int64(d)
         if args["form"] == "method":
             return getattr(x, name)(d, args["keepdims"])
         return getattr(sg, name)(x, d, args["keepdims"])
@@ -497,7 +501,7 @@ def _apply_reduce(name):
 
 
 def _axes(dim, nd):
-    if dim is None:
+    if dim is None or nd == 0:          # (naming dim 0 / -1 of a 0-d tensor reduces over nothing)
         return tuple(range(nd))
     d = dimval(dim)
     if isinstance(d, int):
@@ -527,6 +531,8 @@ def _ref_reduce(ufunc_reduce, mean=False):
 def _reduce_tags(args, shapes):
     t = []
     d = args["dim"]
+    if args.get("np_int"):
+        t.append("numpy_integer_dim")
     if d is None:
         t.append("dim_none")
     elif isinstance(d, dict):
@@ -920,8 +926,13 @@ for _n in ("sqrt", "neg", "clone", "sum", "getitem", "reshape", "transpose"):
 # documented-argument predicates that need more than a lambda ---------------------------------
 BY_NAME["squeeze"].documented = lambda a, s: True          # "dim (int or tuple, optional)"
 BY_NAME["unsqueeze"].documented = lambda a, s: True        # "dim (int or tuple)"
-BY_NAME["sum"].documented = lambda a, s: True              # "dim (int or tuple, optional)"
-BY_NAME["mean"].documented = lambda a, s: True
+# naming dim 0 / -1 of a 0-d tensor: torch accepts it, NumPy only for sum/max/min - not spelled out, accept-or-raise
+# (likewise a NumPy integer where the docstring says int: accept-or-raise, never a different answer)
+_dim_on_0d = lambda a, s: (len(s[0]) == 0 and a.get("dim") is not None) or bool(a.get("np_int"))      # noqa: E731
+BY_NAME["sum"].documented = lambda a, s: not _dim_on_0d(a, s)     # "dim (int or tuple, optional)"
+BY_NAME["mean"].documented = lambda a, s: not _dim_on_0d(a, s)
+BY_NAME["max"].documented = lambda a, s: not _dim_on_0d(a, s)
+BY_NAME["min"].documented = lambda a, s: not _dim_on_0d(a, s)
 
 
 # =============================================================================================
